@@ -53,6 +53,7 @@ def main():
                 'correspondence check: generated cases.v evaluated by coqc/vm_compute against the implementation run under /venv/bin/python with PYTHONPATH=' + common.repo(),
             ] + list(getattr(mod, 'TRUSTED', [])),
         })
+        rep.assumptions = list(rep.coverage['trusted_base'])
         # 3. property-specific: correspondence + oracle search
         mod.run(rep, args.tier, build, replay=args.replay)
     except Exception:
